@@ -9,7 +9,9 @@ import z3
 Int = z3.IntSort()
 Bool = z3.BoolSort()
 Bytes = z3.SeqSort(Int)
-F64 = z3.DeclareSort("F64")
+_F64 = z3.Datatype("F64")          # a float is its 64-bit pattern (a datatype rather than an uninterpreted
+_F64.declare("f64", ("bits", Int))  # sort: z3's SMT-LIB export does not declare sorts used inside datatypes)
+F64 = _F64.create()
 
 _Val = z3.Datatype("Val")
 _VL = z3.Datatype("VL")
